@@ -4,6 +4,8 @@ import RallyProofs.RaceCompletion
 import RallyProofs.RaceProgress
 import RallyProofs.RaceDeadlock
 import RallyProofs.RaceLive
+import RallyProofs.RacePlain
+import RallyProofs.RaceOfAlloc
 /-!
 # C01 — the schedule runs step by step on all clients under any message timing
 
@@ -235,6 +237,115 @@ theorem willComplete_meaning (l : List MsgDW) (h : Bool) :
 theorem starts_at_most_once (cfg : Cfg) (hwf : cfg.WF) (s : State) (hr : Reach cfg s) :
     s.entered.Nodup ∧ ∀ w e c, (w, e, c) ∈ s.entered → notAfter e c (s.ws w).pos :=
   reach_einv hwf hr
+
+/-- **no_spurious_completion** — while an element without completed-by is being executed, the driver has not
+    broadcast CompleteCurrentTask, no worker's completion flag is set and no inbox holds a CompleteCurrentTask that
+    the worker would honour (a stale one from the previous element is always in front of the Drive and is dropped). -/
+theorem no_spurious_completion (cfg : Cfg) (hwf : cfg.WF) (s : State) (hr : Reach cfg s) (D : Nat)
+    (hD : s.d.stepP1 = D + 1) (hDS : D < cfg.S) (hpl : PlainElem cfg D) :
+    s.d.cctSent = false ∧
+    ∀ w, w < cfg.W → (s.ws w).complete = false ∧ willComplete (s.d2w w) (honours (s.ws w)) = false :=
+  reach_qinv hwf hr D hD hDS hpl
+
+/-- **runs_every_column** — a worker that has left an element without completed-by has started every one of its
+    (non-empty) task columns of that element: nothing allocated there is skipped. -/
+theorem runs_every_column (cfg : Cfg) (hwf : cfg.WF) (s : State) (hr : Reach cfg s) (w e : Nat) (hw : w < cfg.W)
+    (hpl : PlainElem cfg e)
+    (hpast : match (s.ws w).pos with
+      | .unstarted => False
+      | .atJoin j => e < j
+      | .inCol e' _ => e < e') :
+    ∀ c, c < (cfg.elems w e).length → (w, e, c) ∈ s.entered := by
+  have h := reach_ainv hwf hr w e hw hpl
+  cases hp : (s.ws w).pos with
+  | unstarted => rw [hp] at hpast; exact absurd hpast (by simp)
+  | atJoin j => rw [hp] at hpast h; exact h hpast
+  | inCol e' c' => rw [hp] at hpast h; exact h.1 hpast
+
+/-- **exactly_once** — … and it has started each of them exactly once -/
+theorem runs_every_column_exactly_once (cfg : Cfg) (hwf : cfg.WF) (s : State) (hr : Reach cfg s) (w e : Nat)
+    (hw : w < cfg.W) (hpl : PlainElem cfg e)
+    (hpast : match (s.ws w).pos with
+      | .unstarted => False
+      | .atJoin j => e < j
+      | .inCol e' _ => e < e') :
+    ∀ c, c < (cfg.elems w e).length → s.entered.count (w, e, c) = 1 := by
+  intro c hc
+  exact List.count_eq_one_of_mem (starts_at_most_once cfg hwf s hr).1 (runs_every_column cfg hwf s hr w e hw hpl hpast c hc)
+
+/-- when the race is over (BenchmarkComplete has been sent) every worker is parked at the last join point -/
+theorem finished_all_at_last_join (cfg : Cfg) (hwf : cfg.WF) (s : State) (hr : Reach cfg s)
+    (hfin : s.d.stepP1 = cfg.S + 1) (w : Nat) (hw : w < cfg.W) : (s.ws w).pos = .atJoin cfg.S := by
+  have hwi := (reach_inv hwf hr).winv w hw
+  unfold WInv at hwi
+  cases hp : (s.ws w).pos with
+  | unstarted => simp only [hp] at hwi; omega
+  | inCol e c => simp only [hp] at hwi; omega
+  | atJoin j =>
+    simp only [hp] at hwi
+    rcases hwi.2.2.2 with ⟨h1, _⟩ | ⟨h1, _⟩
+    · omega
+    · congr; omega
+
+/-- **finished_race_ran_everything** — in a finished race every worker has started every column of every element
+    without completed-by exactly once -/
+theorem finished_race_ran_everything (cfg : Cfg) (hwf : cfg.WF) (s : State) (hr : Reach cfg s)
+    (hfin : s.d.stepP1 = cfg.S + 1) (w e : Nat) (hw : w < cfg.W) (he : e < cfg.S) (hpl : PlainElem cfg e) :
+    ∀ c, c < (cfg.elems w e).length → s.entered.count (w, e, c) = 1 := by
+  have hp := finished_all_at_last_join cfg hwf s hr hfin w hw
+  exact runs_every_column_exactly_once cfg hwf s hr w e hw hpl (by rw [hp]; exact he)
+
+/-! ### link to the allocator model (C02): the configuration the driver hands to its workers -/
+
+open RaceOfAlloc in
+/-- **allocated_client_runs_exactly_once** — end to end over both models: take ANY schedule, ANY layout of the
+    physical clients over started workers, the configuration `cfgOf` the driver derives from the allocation matrix
+    (the correspondence check compares it with the real `ClientAllocations` on every simulated race), and ANY finished
+    race of it.  Then every logical client of every element without completed-by — sub-task `sub`, client index `i`,
+    the `c`-th in allocation order — has been started exactly once, on physical client `c % m`, by the worker that
+    owns that client. -/
+theorem allocated_client_runs_exactly_once (finite : Nat → Bool) (sched : List Alloc.Element) (workers : List (List Nat))
+    (s : State) (hr : Reach (cfgOf finite sched workers) s) (hfin : s.d.stepP1 = sched.length + 1)
+    (e w c i : Nat) (el : Alloc.Element) (rows : List Nat) (sub : Alloc.Sub)
+    (hel : sched[e]? = some el) (hn : NoCompletedBy el) (hw : workers[w]? = some rows)
+    (hc : (Alloc.expand el)[c]? = some (sub, i)) (hrow : c % Alloc.maxClients sched ∈ rows) :
+    ∃ (c' : Nat) (col : List TaskA), ((cfgOf finite sched workers).elems w e)[c']? = some col ∧
+      (⟨c % Alloc.maxClients sched, sub.id, finite sub.id, sub.completesParent, sub.anyCompletes⟩ : TaskA) ∈ col ∧
+      s.entered.count (w, e, c') = 1 := by
+  have hwne : workers ≠ [] := by
+    intro h; rw [h] at hw; simp at hw
+  have hwf := cfgOf_wf finite sched workers hwne
+  have hwlt : w < (cfgOf finite sched workers).W := by
+    simp only [cfgOf]
+    rcases Nat.lt_or_ge w workers.length with h | h
+    · exact h
+    · rw [List.getElem?_eq_none_iff.mpr h] at hw; exact absurd hw (by simp)
+  have helt : e < (cfgOf finite sched workers).S := by
+    simp only [cfgOf]
+    rcases Nat.lt_or_ge e sched.length with h | h
+    · exact h
+    · rw [List.getElem?_eq_none_iff.mpr h] at hel; exact absurd hel (by simp)
+  obtain ⟨c', col, hcol, hmem⟩ := client_in_a_column finite sched workers e w c el rows sub i hel hw hc hrow
+  refine ⟨c', col, hcol, hmem, ?_⟩
+  have hlen : c' < ((cfgOf finite sched workers).elems w e).length := by
+    rcases Nat.lt_or_ge c' ((cfgOf finite sched workers).elems w e).length with h | h
+    · exact h
+    · rw [List.getElem?_eq_none_iff.mpr h] at hcol; exact absurd hcol (by simp)
+  exact finished_race_ran_everything _ hwf s hr (by simpa [cfgOf] using hfin) w e hwlt helt
+    (cfgOf_plain finite sched workers e el hel hn) c' hlen
+
+/-- non-vacuity: a schedule of a 3-client task followed by a parallel element of a 1-client and a 2-client task,
+    three physical clients on two workers -/
+def exSched : List Alloc.Element :=
+  [⟨none, [⟨0, 3, false, false⟩]⟩, ⟨some 2, [⟨1, 1, false, false⟩, ⟨2, 2, false, false⟩]⟩]
+def exWorkers : List (List Nat) := [[0, 1], [2]]
+
+example : ((RaceOfAlloc.cfgOf (fun _ => true) exSched exWorkers).elems 0 1) =
+    [[⟨0, 1, true, false, false⟩, ⟨1, 2, true, false, false⟩]] := by decide
+example : ((RaceOfAlloc.cfgOf (fun _ => true) exSched exWorkers).elems 1 1) = [[⟨2, 2, true, false, false⟩]] := by decide
+example : RaceOfAlloc.NoCompletedBy ⟨some 2, [⟨1, 1, false, false⟩, ⟨2, 2, false, false⟩]⟩ := by
+  intro s hs; simp at hs; rcases hs with rfl | rfl <;> simp
+example : (Alloc.expand ⟨some 2, [⟨1, 1, false, false⟩, ⟨2, 2, false, false⟩]⟩)[2]? = some (⟨2, 2, false, false⟩, 1) := by decide
 
 /-- an idle poll (wake-up while the executor is still running) leaves the worker exactly as it was -/
 theorem idle_poll_is_stutter (cfg : Cfg) (s : State) (w : Nat) (ts : List (TaskA × Bool))
